@@ -659,22 +659,13 @@ func (g *gen) genEnum(f *File, scope string) *Enum {
 	return e
 }
 
+// defaultLit draws a non-zero default literal of a scalar type: an everyday value or a boundary /
+// near-boundary one (defaults.go defaultPools; all literals of a type are distinct values).
 func defaultLit(r *hx.Rand, typ string) string {
-	switch typ {
-	case "int32", "int64", "sint32", "sint64", "sfixed32", "sfixed64":
-		return hx.Pick(r, []string{"5", "-3", "42", "1"})
-	case "uint32", "uint64", "fixed32", "fixed64":
-		return hx.Pick(r, []string{"7", "1", "4000000000"})
-	case "float", "double":
-		return hx.Pick(r, []string{"1.5", "-2e3", "inf", "nan", "0.25", "-inf"})
-	case "bool":
+	if typ == "bool" {
 		return "true"
-	case "string":
-		return hx.Pick(r, []string{`"abc"`, `"x y"`, `"q\"uote"`})
-	case "bytes":
-		return hx.Pick(r, []string{`"\001\377"`, `"raw"`})
 	}
-	return ""
+	return poolLit(r, typ)
 }
 
 func is64(typ string) bool {
